@@ -329,6 +329,8 @@ inductive Spec where
   | seq (els : List Spec)
   /-- `Split([tuple(b) for b in branches], bufsize)`, every branch of type "sequence" -/
   | split (branches : List (List Spec)) (bufsize : Option Nat)
+  /-- `lena.core.Run(el)` built by the caller -/
+  | runAdapter (inner : Spec)
   /-- instance of a synthetic class with the given attributes -/
   | syn (run : Attr) (call : Bool) (fill compute : Attr) (nodata : Bool)
   /-- an object with none of the interfaces (`5`, `"abc"`, `None`) -/
@@ -434,6 +436,14 @@ def Spec.toElement : Spec → Except Exc (Element Value)
                  runDen := fun s => .ok (splitS (bs.map Seq.run) bufsize s)
                  callDen := fun _ => .error .typeError
                  genDen := .ok (.fail .lenaAttributeError) }
+  | .runAdapter inner =>
+    -- `adapters.Run.__init__`; the adapter object has the bound `run` and nothing else
+    match Spec.toElement inner with
+    | .error e => .error e
+    | .ok el =>
+      match mkRun el with
+      | .error e => .error e
+      | .ok st => .ok { run := .method, runDen := st.run }
   | .syn r c f cp nd => .ok (synElement r c f cp nd)
   | .junk => .ok {}
   | .setContext => .ok { hasNoData := true }
@@ -480,5 +490,31 @@ def Spec.toTrees : List Spec → Except Exc (List (Tree Value))
       | .error e => .error e
       | .ok ts => .ok (t :: ts)
 end
+
+mutual
+/-- the top-level elements of a program with its nested `Sequence(...)` groups dissolved -/
+def Spec.flat : Spec → List Spec
+  | .seq els => Spec.flats els
+  | .call f => [.call f]
+  | .var n g => [.var n g]
+  | .filter p => [.filter p]
+  | .slice a b s => [.slice a b s]
+  | .count n => [.count n]
+  | .runIf p i => [.runIf p i]
+  | .reverse => [.reverse]
+  | .end_ => [.end_]
+  | .acc k => [.acc k]
+  | .split b s => [.split b s]
+  | .runAdapter i => [.runAdapter i]
+  | .syn r c f p n => [.syn r c f p n]
+  | .junk => [.junk]
+  | .setContext => [.setContext]
+  | .gen f => [.gen f]
+  | .iter f => [.iter f]
+def Spec.flats : List Spec → List Spec
+  | [] => []
+  | s :: ss => s.flat ++ Spec.flats ss
+end
+
 
 end Lena.C01
